@@ -322,8 +322,13 @@ class Inliner:
         body = fn.body
         if body and isinstance(body[0], ast.Expr) and isinstance(body[0].value, ast.Constant) and isinstance(body[0].value.value, str):
             body = body[1:]
-        if len(body) == 1 and isinstance(body[0], ast.Return) and body[0].value is not None and not fn.args.vararg and not fn.args.kwarg \
-                and not _has(fn, (ast.Yield, ast.YieldFrom, ast.Await, ast.Lambda, ast.NamedExpr)):
+        if fn.args.vararg or fn.args.kwarg or _has(fn, (ast.Yield, ast.YieldFrom, ast.Await, ast.Lambda, ast.NamedExpr)):
+            return None
+        if len(body) == 1 and isinstance(body[0], ast.Return) and body[0].value is not None:
+            return body[0].value
+        # t = E ; return t
+        if len(body) == 2 and isinstance(body[0], ast.Assign) and len(body[0].targets) == 1 and isinstance(body[0].targets[0], ast.Name) \
+                and isinstance(body[1], ast.Return) and isinstance(body[1].value, ast.Name) and body[1].value.id == body[0].targets[0].id:
             return body[0].value
         return None
 
